@@ -21,7 +21,7 @@ CHECKS = {
          "DESIGN.md §5 C04, §4 E5, A.4"),
  "C05": ("mc-sem", "translation_validation",
          "exhaustive enumeration of generated WIT packages encoded by wac and by the reference WIT toolchain, compared inside one validator",
-         "Every package of the bounded WIT enumeration (all type declarations x function shapes, pairs of declarations, dependent declarations, resources with every member subset, `use` chains / diamonds / renames / derived types over every base declaration, world-level use / types / inline interfaces / paths / include with 0-2 renames, versioned and unversioned; ~300 packages quick, ~850 thorough) is parsed, resolved and encoded by wac as a WAC document and encoded by wit-component; both artefacts are nested in one wrapper component validated once: every interface type must be a mutual subtype of the reference's (wasmparser is_subtype_of), every world must have the same explicit imports and exports with equal canonical types.",
+         "Every package of the bounded WIT enumeration (all type declarations x function shapes, pairs of declarations, dependent declarations, resources with every member subset, `use` chains of three to five interfaces / diamonds / renames / derived types over every base declaration, world-level use / types / inline interfaces / paths / include with 0-2 renames, versioned and unversioned; ~300 packages quick, ~850 thorough) is parsed, resolved and encoded by wac as a WAC document and encoded by wit-component; both artefacts are nested in one wrapper component validated once: every interface type must be a mutual subtype of the reference's (wasmparser is_subtype_of), every world must have the same explicit imports and exports with equal canonical types.",
          "Trusts wit-parser/wit-component 0.247 as the reference WIT semantics and wasmparser's subtyping. Interfaces a world depends on only through `use` are not 'explicit imports' (wac encodes them types-only) and are compared by presence.",
          "DESIGN.md §5 C05, §4 E3"),
  "C11": ("mc-sem", "exploration",
@@ -41,7 +41,7 @@ CHECKS = {
          "DESIGN.md §5 C17"),
  "C08": ("mc-graph", "exploration",
          "exhaustive enumeration of generated WIT worlds built into real components; decoded world vs the reference validator's type tables via two independent canonical printers; wrapper-component subtyping for re-encoded dependency types",
-         "Every world of every package of the bounded WIT enumeration (all type declarations x function shapes, dependent declarations, `use` chains/diamonds/renames/derived types, world-level use/types/include-with; ~600 components quick, ~1500 thorough) is built into a real component, loaded with Package::from_bytes, and compared with wasmparser's view: import/export names in order, per-item canonical type (kinds, parameter names and order, results, async, value types, resource identity and aliasing through one resource numbering per world), instance type = exports, used-type provenance against type identity in the validator, and - with define_components=false - the original component must be a subtype of the written `unlocked-dep` component type inside one wrapper. The 170-item hand-shaped type universe of C07 (every import kind incl. core modules) and the LibHand components are compared the same way.",
+         "Every world of every package of the bounded WIT enumeration (all type declarations x function shapes, dependent declarations, `use` chains of three to five interfaces/diamonds/renames/derived types, world-level use/types/include-with; ~600 components quick, ~1500 thorough) is built into a real component, loaded with Package::from_bytes, and compared with wasmparser's view: import/export names in order, per-item canonical type (kinds, parameter names and order, results, async, value types, resource identity and aliasing through one resource numbering per world), instance type = exports, used-type provenance against type identity in the validator, and - with define_components=false - the original component must be a subtype of the written `unlocked-dep` component type inside one wrapper. The 170-item hand-shaped type universe of C07 (every import kind incl. core modules) and the LibHand components are compared the same way.",
          "Trusts wasmparser's type tables and the two printers (mc-core e2::Canon / canon_wac). Type shapes are those of the generator.",
          "DESIGN.md §5 C08, §4 E3"),
  "C07": ("mc-graph", "model_checking",
@@ -96,7 +96,7 @@ CHECKS = {
          "DESIGN.md §5 C13, §4 E4"),
  "C14": ("mc-lang", "fault_enumeration",
          "exhaustive single-fault enumeration around valid documents and valid package binaries (every token mutant, prefix, character substitution, multi-byte insertion; every byte prefix, bit flip and byte substitution), nesting families in supervised subprocesses; panic/abort/hang/span oracle on the real parser, resolver, decoder and encoder",
-         "Text half: around every base document of the C12 corpus (depth 3) and every repository .wac file: every single-token mutant, subtree deletion, layout deviation, every prefix, every single-character substitution by {NUL, quote, slash, DEL}, every insertion of 12 multi-byte scalars at every token boundary, truncation into a comment, the same insertions after a comment of multi-byte characters, every identifier replaced by one identifier, all ordered pairs of interface / world / top-level items defining the same name (300 documents), and parametric nesting families at depths 2^1..2^17 (supervised workers; death by signal or 5 s silence is a violation) - ~5.5 M texts. parse, then resolve (empty package set) and encode must return without panic; every span and every error label must satisfy offset+len <= len on character boundaries; every error must render with miette's graphical handler. Byte half: every prefix, single-bit flip and substitution by {00,01,7F,80,FF} of 14 seed binaries (library components, core module, headers; ~74k byte strings quick) decoded with Package::from_bytes in supervised chunk workers, and decodable ones instantiated and encoded in both modes; 795/5k document x package pairings (missing, swapped, corrupted) and every ordered list of 1..3 (thorough 4) packages of the versioned-import library instantiated with implicit arguments, alone and after an explicit import statement under each of 6 versioned interface names with a merging / conflicting type (~4.6k / 60k documents), resolved and encoded. Every corpus text is additionally rendered in the tightest layout the reference tokenizer still splits identically (~2.7 M more texts quick).",
+         "Text half: around every base document of the C12 corpus (depth 3) and every repository .wac file: every single-token mutant, subtree deletion, layout deviation, every prefix, every single-character substitution by {NUL, quote, slash, DEL}, every insertion of 12 multi-byte scalars at every token boundary, truncation into a comment, the same insertions after a comment of multi-byte characters, every identifier replaced by one identifier, all ordered pairs of interface / world / top-level items defining the same name, every kind of let-bound item in every top-level position that takes a name, package paths of one to three segments landing on every kind of item in every path position (~520 documents), and parametric nesting families at depths 2^1..2^17 (supervised workers; death by signal or 5 s silence is a violation) - ~5.5 M texts. parse, then resolve (empty package set) and encode must return without panic; every span and every error label must satisfy offset+len <= len on character boundaries; every error must render with miette's graphical handler. Byte half: every prefix, single-bit flip and substitution by {00,01,7F,80,FF} of 14 seed binaries (library components, core module, headers; ~74k byte strings quick) decoded with Package::from_bytes in supervised chunk workers, and decodable ones instantiated and encoded in both modes; 795/5k document x package pairings (missing, swapped, corrupted) and every ordered list of 1..3 (thorough 4) packages of the versioned-import library instantiated with implicit arguments, alone and after an explicit import statement under each of 6 versioned interface names with a merging / conflicting type (~4.6k / 60k documents), resolved and encoded. Every corpus text is additionally rendered in the tightest layout the reference tokenizer still splits identically (~2.7 M more texts quick).",
          "Single faults only (no pairs of faults); invalid UTF-8 is not representable as &str. Hangs are detected by a 5 s silence bound in workers. 4 known findings (deep-nesting stack overflow, miette width panic, encoder panic on a decodable mutant) are listed in known-findings.json.",
          "DESIGN.md §5 C14, §4 E6"),
  "C18": ("mc-env", "exploration",
